@@ -332,8 +332,13 @@ class Replica:
 
     def observe_user(self, name: str, status, stats, privileged):
         """Returns [(field, expected, observed, deciding kind)]; adopts the observation."""
+        fresh = name not in self.users
         rec = self.users.setdefault(name, {'status': None, 'stats': None, 'status_src': None, 'stats_src': None})
         out = []
+        if fresh and getattr(self, 'after_reset', False) and any(v is not None for v in stats):
+            # a new session: nothing was announced about this user yet, so nothing is known about it - statistics seen
+            # now can only stem from the session that ended
+            out.append(('stats', (None, None, None, None), tuple(stats), 'session_reset'))
         if rec['status'] is not None and rec['status'] != status:
             out.append(('status', rec['status'], status, rec['status_src']))
         if rec['status'] != status:
